@@ -97,7 +97,8 @@ Definition disarm (f : wfile) : wfile :=
   end.
 Definition set_pos (f : wfile) (p : nat) : wfile := mkFile (w_name f) (w_kind f) (w_data f) p (w_fault f).
 
-Inductive rd := RdOk (bs : bytes) (f' : wfile) | RdFail (consumed : bytes) (f' : wfile).
+(* RdOk bs sk f': the whole rest of the source, read from offset sk, was fed to the compressor *)
+Inductive rd := RdOk (bs : bytes) (sk : nat) (f' : wfile) | RdFail (consumed : bytes) (f' : wfile).
 
 Definition is_kdata (f : wfile) : bool := match w_kind f with KData => true | _ => false end.
 
@@ -105,7 +106,7 @@ Definition is_kdata (f : wfile) : bool := match w_kind f with KData => true | _ 
    [anydata]: some registered member came from writestr/writef (its "origin" is None) *)
 Definition read_src (anydata : bool) (f : wfile) : rd :=
   match w_kind f with
-  | KDir => RdOk [] f
+  | KDir => RdOk [] O f
   | KLink =>
       (* _find_link_target: helpers.readlink raises (EINVAL for a dangling link); then the loop
          `for j in range(len(self.files)): if linkname == self.files[j].origin.as_posix()` raises
@@ -113,15 +114,15 @@ Definition read_src (anydata : bool) (f : wfile) : rd :=
          path of an archived source, so the loop never breaks early); then BytesIO(target) *)
       match w_fault f with
       | Some (mkFault FOpen _) => RdFail [] (disarm f)
-      | _ => if anydata then RdFail [] f else RdOk (w_data f) f
+      | _ => if anydata then RdFail [] f else RdOk (w_data f) O f
       end
   | KFile =>                        (* f.origin.open(): every attempt starts at offset 0 *)
       match w_fault f with
       | Some (mkFault FOpen _) => RdFail [] (disarm f)
       | Some (mkFault (FRead k) _) =>
           if (k <? length (w_data f))%nat then RdFail (firstn k (w_data f)) (disarm f)
-          else RdOk (w_data f) f
-      | _ => RdOk (w_data f) f
+          else RdOk (w_data f) O f
+      | _ => RdOk (w_data f) O f
       end
   | KData =>                        (* f.data(): the caller's object, it keeps its position *)
       let rest := skipn (w_pos f) (w_data f) in
@@ -129,8 +130,8 @@ Definition read_src (anydata : bool) (f : wfile) : rd :=
       | Some (mkFault (FRead k) _) =>
           if (k <? length (w_data f))%nat
           then RdFail (firstn (k - w_pos f) rest) (disarm (set_pos f (Nat.max (w_pos f) k)))
-          else RdOk rest (set_pos f (length (w_data f)))
-      | _ => RdOk rest (set_pos f (length (w_data f)))
+          else RdOk rest (w_pos f) (set_pos f (length (w_data f)))
+      | _ => RdOk rest (w_pos f) (set_pos f (length (w_data f)))
       end
   end.
 
@@ -150,8 +151,8 @@ Definition archive (st : wstate) : wstate * wout :=
          Returned)
       else
         match read_src (existsb is_kdata (ws_files st)) f with
-        | RdOk bs f' =>                                   (* _after_write; last_file_index; current_file_index += 1 *)
-            (mkState D (ws_init st) (ws_done st ++ [(f', w_pos f)]) p (Z.of_nat (length (ws_done st)))
+        | RdOk bs sk f' =>                                   (* _after_write; last_file_index; current_file_index += 1 *)
+            (mkState D (ws_init st) (ws_done st ++ [(f', sk)]) p (Z.of_nat (length (ws_done st)))
                      (ws_subs st ++ [(length bs, dg bs)]) (ws_stream st ++ bs) (ws_garb st), Returned)
         | RdFail c f' =>                                  (* the exception leaves archive() here *)
             (mkState D (ws_init st) (ws_done st) (f' :: p) (ws_last st) (ws_subs st) (ws_stream st ++ c)
@@ -313,6 +314,34 @@ Definition pre_only (op : wop) : bool :=
   match op with
   | OCall _ s => pre_only_src s
   | OWriteall _ l => forallb pre_only_src l
+  end.
+
+(* _find_link_target fails on a valid link once a writestr/writef member is registered: histories
+   free of that second quirk *)
+Definition is_link_src (s : src) : bool := match s_kind s with KLink => true | _ => false end.
+Definition op_links_ok (seen : bool) (op : wop) : bool :=
+  match op with
+  | OCall AWrite s => negb (seen && is_link_src s)
+  | OCall _ _ => true
+  | OWriteall _ l => negb (seen && existsb is_link_src l)
+  end.
+Definition op_adds_data (op : wop) : bool :=
+  match op with
+  | OCall AWrite _ => false
+  | OCall _ s => negb (has_fault s)
+  | OWriteall _ _ => false
+  end.
+Fixpoint links_ok (seen : bool) (ops : list wop) : bool :=
+  match ops with
+  | [] => true
+  | op :: r => op_links_ok seen op && links_ok (seen || op_adds_data op) r
+  end.
+
+(* the sources of a history with the entry point that takes them *)
+Definition op_srcs (op : wop) : list (api * src) :=
+  match op with
+  | OCall a s => [(a, s)]
+  | OWriteall _ l => map (fun s => (AWrite, s)) l
   end.
 
 (* members a call registers but whose call raised: their data must never enter the archive *)
